@@ -20,6 +20,7 @@ TCall == /\ l <= Len(Traces[tid].events) /\ l' = l + 1 /\ UNCHANGED tid
                 /\ memo' = IF Known(k) THEN memo ELSE Append(memo, << k, e.res >>)
                 /\ mem' = mem
                 /\ last' = [f |-> e.f, args |-> e.before, res |-> e.res]
+         /\ Repeatable'
 TraceSpec == TraceInit /\ [][TCall]_tvars
 Progress == LET f == TLCGet(1) IN IF f[tid] < l THEN TLCSet(1, [f EXCEPT ![tid] = l]) ELSE TRUE
 Accepted == LET f == TLCGet(1) IN
